@@ -6,14 +6,14 @@
 
    SAM's read_field is, statement for statement, the one of noodles-bed (BedRead.d_read_field,
    including the `dst.len() > start` CR rule of /repo 3506cd5), so the SAM reader is built from the
-   BED functions.  VCF's read_field differs in two ways:
-     * each window slice is validated on its own:  str::from_utf8(buf)? ; dst.push_str(s)
+   BED functions.  VCF's read_field differs in one way: each window slice is validated on its
+   own:  str::from_utf8(buf)? ; dst.push_str(s)
        (before the slice is consumed) — a multi-byte character split across two windows is an
        InvalidData error (known class vcf-record-field-utf8-split-capacity-dependent);
-     * the CR rule has no `start` test: is_eol && dst.ends_with('\r') -> dst.pop().
+   (the CR rule is the same `dst.len() > start` test since /repo fb10cd9).
    Its final read_line is std's BufRead::read_line into the String (the appended bytes are
-   validated as a whole) and pops LF / CR off the whole buffer; SAM's read_line pops a CR only when
-   it was read by that call (/repo 3506cd5). *)
+   validated as a whole); like SAM's read_line it pops a CR only when it was read by that call
+   (/repo 3506cd5, fb10cd9). *)
 From Coq Require Import List NArith Arith Bool.
 From NV Require Import Io.Source Io.BufReader Io.FastaScan Io.BedRead.
 From NV Require Text.TextBase Text.BedRec Fasta.Fastq.
@@ -23,8 +23,9 @@ Inductive tres := TOk | TInvalid | TNoFuel.
 
 (* ---- whole-buffer closed forms *)
 (* (io result, buf, field ends, rest) *)
-Definition w_tab_tail (dst2 : list N) (d : list N) : list N :=
-  match take_line LF d with [] => dst2 | raw => strip_eol (dst2 ++ raw) end.
+(* read_line appending to a buffer that already holds the fixed fields: LF popped, then a CR only
+   if this call appended it (sam: /repo 3506cd5, vcf: fb10cd9) *)
+Definition w_tab_tail (dst2 : list N) (d : list N) : list N := dst2 ++ strip_eol (take_line LF d).
 
 Definition w_sam_read_record (d : list N) : TextBase.res nat * list N * list nat * list N :=
   let '(ok, src1, dst1, ends, len) := w_read_required 10 d [] [] 0 in
@@ -33,17 +34,18 @@ Definition w_sam_read_record (d : list N) : TextBase.res nat * list N * list nat
     let '(dst2, n2, eol, src2) := w_read_field src1 dst1 in
     let ends2 := ends ++ [length dst2] in
     if eol then (TextBase.Ok (len + n2), dst2, ends2, src2)
-    else (TextBase.Ok (len + n2 + length (take_line LF src2)), dst2 ++ strip_eol (take_line LF src2), ends2,
+    else (TextBase.Ok (len + n2 + length (take_line LF src2)), w_tab_tail dst2 src2, ends2,
           skipn (length (take_line LF src2)) src2).
 
-(* VCF read_field on ASCII input (no validation failure possible): the CR is popped off the whole
-   buffer *)
+(* VCF read_field on ASCII input (no validation failure possible): since /repo fb10cd9 the CR rule is
+   the one of BED / SAM (`dst.len() > start`), so this is [w_read_field] *)
 Definition w_vcf_read_field (src dst : list N) : list N * nat * bool * list N :=
   let '(f, d, r) := BedRec.scan_field src in
   match d with
   | Some c =>
       let eol := N.eqb c 10 in
-      (if eol then TextBase.strip_cr (dst ++ f) else dst ++ f, Datatypes.S (length f), eol, r)
+      (if eol && (length dst <? length (dst ++ f)) then TextBase.strip_cr (dst ++ f) else dst ++ f,
+       Datatypes.S (length f), eol, r)
   | None => (dst ++ f, length f, false, r)
   end.
 
@@ -66,6 +68,48 @@ Definition w_vcf_read_record (d : list N) : TextBase.res nat * list N * list nat
     if eol then (TextBase.Ok (len + n2), dst2, ends2, src2)
     else (TextBase.Ok (len + n2 + length (take_line LF src2)), w_tab_tail dst2 src2, ends2,
           skipn (length (take_line LF src2)) src2).
+
+(* ---- BEHAVIOUR SWITCH ---------------------------------------------------------------------
+   [vcf_utf8_repaired] says which read_field the tree under /repo has:
+     false : each fill_buf window slice is validated on its own, before it is consumed (pinned
+             tree; known class vcf-record-field-utf8-split-capacity-dependent);
+     true  : after /tmp/C12/fixes/05b: a field that is complete in one window is validated there,
+             a field that spans several windows is collected and validated once; the bytes are
+             consumed before the error is reported.
+   It is the only line to change when 05b is committed. *)
+Definition vcf_utf8_repaired : bool := false.
+
+(* the closed form with the UTF-8 validation of the whole field / the whole rest of the line:
+   an invalid field is an InvalidData error AFTER the field (and its delimiter) has been consumed.
+   On input without multi-byte characters it is [w_vcf_read_record] (TabReadProofs.wx_ascii). *)
+Definition field_valid (src : list N) : bool := Fastq.utf8_valid (fst (fst (BedRec.scan_field src))).
+
+(* (all fields valid, ok, rest, dst, ends, len); after an invalid field: rest = what follows it *)
+Fixpoint wx_vcf_read_required (k : nat) (src dst : list N) (ends : list nat) (len : nat)
+  : bool * bool * list N * list N * list nat * nat :=
+  match k with
+  | 0 => (true, true, src, dst, ends, len)
+  | Datatypes.S k' =>
+      let '(dst1, n1, eol, src1) := w_vcf_read_field src dst in
+      if negb (field_valid src) then (false, false, src1, [], [], len)
+      else if eol then (true, false, src1, dst1, ends, len)
+      else wx_vcf_read_required k' src1 dst1 (ends ++ [length dst1]) (len + n1)
+  end.
+
+Definition wx_vcf_read_record (d : list N) : TextBase.res nat * list N * list nat * list N :=
+  let '(valid, ok, src1, dst1, ends, len) := wx_vcf_read_required 7 d [] [] 0 in
+  if negb valid then (TextBase.Err TextBase.InvalidData, [], [], src1)
+  else if negb ok then (TextBase.Err TextBase.InvalidData, dst1, ends, src1)
+  else
+    let '(dst2, n2, eol, src2) := w_vcf_read_field src1 dst1 in
+    if negb (field_valid src1) then (TextBase.Err TextBase.InvalidData, [], [], src2)
+    else
+      let ends2 := ends ++ [length dst2] in
+      if eol then (TextBase.Ok (len + n2), dst2, ends2, src2)
+      else if Fastq.utf8_valid (take_line LF src2) then
+        (TextBase.Ok (len + n2 + length (take_line LF src2)), w_tab_tail dst2 src2, ends2,
+         skipn (length (take_line LF src2)) src2)
+      else (TextBase.Err TextBase.InvalidData, [], [], skipn (length (take_line LF src2)) src2).
 
 Definition ascii (d : list N) : bool := forallb (fun b => N.ltb b 128) d.
 
@@ -97,65 +141,86 @@ Section DeliveredTab.
     end.
 
   (* ---- VCF *)
-  Fixpoint d_vcf_field_loop (fuel : nat) (st : bstate S) (dst : list N) (mat : option N) (len : nat)
-    : tres * list N * option N * nat * bstate S :=
+  (* loop state: dst (validated text), pend (bytes of a field that spans windows, fx only),
+     err (a complete-in-one-window field was invalid, fx only), mat, len *)
+  Fixpoint d_vcf_field_loop (fx : bool) (fuel : nat) (st : bstate S) (dst pend : list N) (err : bool)
+    (mat : option N) (len : nat)
+    : tres * list N * list N * bool * option N * nat * bstate S :=
     match fuel with
-    | 0 => (TNoFuel, dst, mat, len, st)
+    | 0 => (TNoFuel, dst, pend, err, mat, len, st)
     | Datatypes.S fuel' =>
       match br_fill_buf rd cap st with
-      | (RInt, st1) => d_vcf_field_loop fuel' st1 dst mat len
+      | (RInt, st1) => d_vcf_field_loop fx fuel' st1 dst pend err mat len
       | (ROk src, st1) =>
         match mat, src with
-        | Some _, _ => (TOk, dst, mat, len, st1)
-        | None, [] => (TOk, dst, mat, len, st1)
+        | Some _, _ => (TOk, dst, pend, err, mat, len, st1)
+        | None, [] => (TOk, dst, pend, err, mat, len, st1)
         | None, _ =>
           match BedRec.scan_field src with
           | (f, Some c, _) =>
-              if Fastq.utf8_valid f then
-                d_vcf_field_loop fuel' (br_consume (Datatypes.S (length f)) st1) (dst ++ f) (Some c)
-                  (len + Datatypes.S (length f))
-              else (TInvalid, dst, Some c, len, st1)
+              let st2 := br_consume (Datatypes.S (length f)) st1 in
+              let len2 := len + Datatypes.S (length f) in
+              if fx then
+                match pend with
+                | [] => if Fastq.utf8_valid f
+                        then d_vcf_field_loop fx fuel' st2 (dst ++ f) [] err (Some c) len2
+                        else d_vcf_field_loop fx fuel' st2 dst [] true (Some c) len2
+                | _ => d_vcf_field_loop fx fuel' st2 dst (pend ++ f) err (Some c) len2
+                end
+              else if Fastq.utf8_valid f
+                   then d_vcf_field_loop fx fuel' st2 (dst ++ f) pend err (Some c) len2
+                   else (TInvalid, dst, pend, err, Some c, len, st1)
           | (_, None, _) =>
-              if Fastq.utf8_valid src then
-                d_vcf_field_loop fuel' (br_consume (length src) st1) (dst ++ src) None (len + length src)
-              else (TInvalid, dst, None, len, st1)
+              let st2 := br_consume (length src) st1 in
+              if fx then d_vcf_field_loop fx fuel' st2 dst (pend ++ src) err None (len + length src)
+              else if Fastq.utf8_valid src
+                   then d_vcf_field_loop fx fuel' st2 (dst ++ src) pend err None (len + length src)
+                   else (TInvalid, dst, pend, err, None, len, st1)
           end
         end
       end
     end.
 
-  Definition d_vcf_read_field (fuel : nat) (st : bstate S) (dst : list N)
+  (* what the end of read_field makes of the loop state: None = InvalidData *)
+  Definition vfin (dst pend : list N) (err : bool) : option (list N) :=
+    if err then None else if Fastq.utf8_valid pend then Some (dst ++ pend) else None.
+
+  Definition d_vcf_read_field_fx (fx : bool) (fuel : nat) (st : bstate S) (dst : list N)
     : tres * list N * nat * bool * bstate S :=
-    match d_vcf_field_loop fuel st dst None 0 with
-    | (TOk, dst1, mat, len, st1) =>
-      let eol := match mat with Some c => N.eqb c 10 | None => false end in
-      (TOk, if eol then TextBase.strip_cr dst1 else dst1, len, eol, st1)
-    | (r, dst1, _, len, st1) => (r, dst1, len, false, st1)
+    match d_vcf_field_loop fx fuel st dst [] false None 0 with
+    | (TOk, dst1, pend, err, mat, len, st1) =>
+      match vfin dst1 pend err with
+      | None => (TInvalid, [], len, false, st1)
+      | Some dst2 =>
+        let eol := match mat with Some c => N.eqb c 10 | None => false end in
+        (TOk, if eol && (length dst <? length dst2) then TextBase.strip_cr dst2 else dst2, len, eol, st1)
+      end
+    | (r, _, _, _, _, len, st1) => (r, [], len, false, st1)
     end.
 
-  Fixpoint d_vcf_read_required (k fuel : nat) (st : bstate S) (dst : list N) (ends : list nat) (len : nat)
-    : tres * bool * list N * list nat * nat * bstate S :=
+  Fixpoint d_vcf_read_required_fx (fx : bool) (k fuel : nat) (st : bstate S) (dst : list N)
+    (ends : list nat) (len : nat) : tres * bool * list N * list nat * nat * bstate S :=
     match k with
     | 0 => (TOk, true, dst, ends, len, st)
     | Datatypes.S k' =>
-      match d_vcf_read_field fuel st dst with
+      match d_vcf_read_field_fx fx fuel st dst with
       | (TOk, dst1, n1, eol, st1) =>
         if eol then (TOk, false, dst1, ends, len, st1)
-        else d_vcf_read_required k' fuel st1 dst1 (ends ++ [length dst1]) (len + n1)
-      | (r, dst1, _, _, st1) => (r, false, dst1, ends, len, st1)
+        else d_vcf_read_required_fx fx k' fuel st1 dst1 (ends ++ [length dst1]) (len + n1)
+      | (r, _, _, _, st1) => (r, false, [], [], len, st1)
       end
     end.
 
-  Definition d_vcf_read_record (fuel : nat) (st : bstate S)
+  Definition d_vcf_read_record_fx (fx : bool) (fuel : nat) (st : bstate S)
     : TextBase.res nat * list N * list nat * bstate S :=
-    match d_vcf_read_required 7 fuel st [] [] 0 with
+    match d_vcf_read_required_fx fx 7 fuel st [] [] 0 with
     | (TNoFuel, _, _, _, _, st1) => (TextBase.Err TextBase.OutOfFuel, [], [], st1)
-    | (TInvalid, _, dst1, ends, _, st1) => (TextBase.Err TextBase.InvalidData, dst1, ends, st1)
+    | (TInvalid, _, _, _, _, st1) => (TextBase.Err TextBase.InvalidData, [], [], st1)
     | (TOk, false, dst1, ends, _, st1) => (TextBase.Err TextBase.InvalidData, dst1, ends, st1)
     | (TOk, true, dst1, ends, len, st1) =>
-      match d_vcf_read_field fuel st1 dst1 with
+      match d_vcf_read_field_fx fx fuel st1 dst1 with
       | (TNoFuel, _, _, _, st2) => (TextBase.Err TextBase.OutOfFuel, [], [], st2)
-      | (TInvalid, dst2, _, _, st2) => (TextBase.Err TextBase.InvalidData, dst2, ends, st2)
+      | (TInvalid, _, _, _, st2) => (TextBase.Err TextBase.InvalidData, [], [], st2)
       | (TOk, dst2, n2, eol, st2) =>
         let ends2 := ends ++ [length dst2] in
         if eol then (TextBase.Ok (len + n2), dst2, ends2, st2)
@@ -164,10 +229,14 @@ Section DeliveredTab.
           | (_, UNoFuel, st3) => (TextBase.Err TextBase.OutOfFuel, [], [], st3)
           | (raw, UOk, st3) =>
               if Fastq.utf8_valid raw then
-                (TextBase.Ok (len + n2 + length raw),
-                 match raw with [] => dst2 | _ => strip_eol (dst2 ++ raw) end, ends2, st3)
-              else (TextBase.Err TextBase.InvalidData, dst2, ends2, st3)
+                (TextBase.Ok (len + n2 + length raw), dst2 ++ strip_eol raw, ends2, st3)
+              else (TextBase.Err TextBase.InvalidData, [], [], st3)
           end
       end
     end.
+
+  (* the reader of the tree *)
+  Definition d_vcf_read_record (fuel : nat) (st : bstate S)
+    : TextBase.res nat * list N * list nat * bstate S :=
+    d_vcf_read_record_fx vcf_utf8_repaired fuel st.
 End DeliveredTab.
